@@ -96,12 +96,16 @@ var c20Helpers = []c20Helper{
 	c20On("OnObject", func(it ap.Item, f func(*ap.Object) error) error { return ap.OnObject(it, f) }),
 	c20On("OnActor", func(it ap.Item, f func(*ap.Actor) error) error { return ap.OnActor(it, f) }),
 	c20On("OnActivity", func(it ap.Item, f func(*ap.Activity) error) error { return ap.OnActivity(it, f) }),
-	c20On("OnIntransitiveActivity", func(it ap.Item, f func(*ap.IntransitiveActivity) error) error { return ap.OnIntransitiveActivity(it, f) }),
+	c20On("OnIntransitiveActivity", func(it ap.Item, f func(*ap.IntransitiveActivity) error) error {
+		return ap.OnIntransitiveActivity(it, f)
+	}),
 	c20On("OnQuestion", func(it ap.Item, f func(*ap.Question) error) error { return ap.OnQuestion(it, f) }),
 	c20On("OnCollection", func(it ap.Item, f func(*ap.Collection) error) error { return ap.OnCollection(it, f) }),
 	c20On("OnCollectionPage", func(it ap.Item, f func(*ap.CollectionPage) error) error { return ap.OnCollectionPage(it, f) }),
 	c20On("OnOrderedCollection", func(it ap.Item, f func(*ap.OrderedCollection) error) error { return ap.OnOrderedCollection(it, f) }),
-	c20On("OnOrderedCollectionPage", func(it ap.Item, f func(*ap.OrderedCollectionPage) error) error { return ap.OnOrderedCollectionPage(it, f) }),
+	c20On("OnOrderedCollectionPage", func(it ap.Item, f func(*ap.OrderedCollectionPage) error) error {
+		return ap.OnOrderedCollectionPage(it, f)
+	}),
 	c20On("OnPlace", func(it ap.Item, f func(*ap.Place) error) error { return ap.OnPlace(it, f) }),
 	c20On("OnProfile", func(it ap.Item, f func(*ap.Profile) error) error { return ap.OnProfile(it, f) }),
 	c20On("OnRelationship", func(it ap.Item, f func(*ap.Relationship) error) error { return ap.OnRelationship(it, f) }),
